@@ -115,6 +115,7 @@ def gen_program(rng: Any, *, max_cbs: int = 8, for_sweep: bool = False) -> dict[
         "sched_seed": rng.randrange(1 << 30),
         "shuffle": rng.random() < 0.5,
         "nested": rng.random() < 0.5,
+        "sibling": rng.random() < 0.4,
         "driver": driver,
         "in_handler": in_handler,
         "later_raises": driver == "stack" and rng.random() < 0.6,
@@ -165,6 +166,10 @@ class Run:
         self.other_ctx_calls = 0
         self.generator_based_awaitables = 0
         self.from_component_registrations = 0
+        self.outer_ready = anyio.Event()
+        self.main_left = anyio.Event()
+        self.sibling_done = anyio.Event()
+        self.sibling_in_teardown = False
         self.failed_service_starts = 0
         self.gen_shapes: dict[str, int] = {}
         self.setup_registrations = 0
@@ -627,7 +632,14 @@ class Run:
                 self.scope = scope
                 if prog["nested"]:
                     async with Context() as self.outer_ctx:
-                        await self.drive()
+                        self.outer_ready.set()
+                        try:
+                            await self.drive()
+                        finally:
+                            self.main_left.set()
+                            if prog.get("sibling"):
+                                with CancelScope(shield=True):
+                                    await self.sibling_done.wait()
                 else:
                     await self.drive()
 
@@ -648,24 +660,42 @@ class Run:
                     raise RuntimeError("harness: no scope")
                 self.scope.cancel()
 
+        async def sibling() -> None:
+            # a sibling context (same parent) in another task whose own teardown is under way - suspended inside one of its
+            # callbacks - for as long as the context under test is being left: the two teardowns have nothing to do with each other
+            await self.outer_ready.wait()
+            try:
+                async with Context(self.outer_ctx) as sib:
+                    async def hold() -> None:
+                        self.sibling_in_teardown = True
+                        await self.main_left.wait()
+
+                    sib.add_teardown_callback(hold)
+            finally:
+                self.sibling_done.set()
+
         try:
-            if cancel is None:
-                await scoped()
-            elif cancel.get("native"):
-                loop = asyncio.get_running_loop()
-                self.host_task = loop.create_task(scoped())
-                async with create_task_group() as tg:
-                    tg.start_soon(controller, tg.cancel_scope)
-                    try:
-                        await self.host_task
-                    except BaseException:
-                        pass
-                    tg.cancel_scope.cancel()
-            else:
-                async with create_task_group() as tg:
-                    tg.start_soon(controller, tg.cancel_scope)
+            async with create_task_group() as sib_tg:
+                if prog["nested"] and prog.get("sibling"):
+                    sib_tg.start_soon(sibling)
+                if cancel is None:
                     await scoped()
-                    tg.cancel_scope.cancel()
+                elif cancel.get("native"):
+                    loop = asyncio.get_running_loop()
+                    self.host_task = loop.create_task(scoped())
+                    async with create_task_group() as tg:
+                        tg.start_soon(controller, tg.cancel_scope)
+                        try:
+                            await self.host_task
+                        except BaseException:
+                            pass
+                        tg.cancel_scope.cancel()
+                else:
+                    async with create_task_group() as tg:
+                        tg.start_soon(controller, tg.cancel_scope)
+                        await scoped()
+                        tg.cancel_scope.cancel()
+                sib_tg.cancel_scope.cancel()
         except BaseException as e:  # whatever leaks past the scope is not a verdict by itself
             self.trace.log("escaped", "harness", exc=describe_exc(e))
         self.trace.log("finish", "harness")
@@ -858,6 +888,8 @@ def features(run: Run) -> dict[str, int]:
         inc("resource_route_multi_type")
     if run.failed_service_starts:
         inc("callbacks_registered_while_a_service_task_of_the_context_failed_to_start", run.failed_service_starts)
+    if run.sibling_in_teardown:
+        inc("contexts_left_while_a_sibling_context_was_suspended_in_its_own_teardown")
     if run.from_component_registrations:
         inc("callbacks_registered_by_a_starting_component", run.from_component_registrations)
     if run.generator_based_awaitables:
